@@ -81,8 +81,8 @@ def main():
         raise fw.Machinery('no scenario was accepted: templates broken')
     chk.cov['exhaustive'] = thorough
     chk.cov['rule'] = ('scenarios of SPTime.tla: subset of optional bounds present x focused bound x distance from its edge '
-                      '(-2..+2 s, far) x multiples of the allowance x allowance {0,1,60,86400} x five time-stamp spellings (fractions below and above one half); '
-                      'thorough replays all 41 280, quick a seeded quarter; non-trivial = the contract demands acceptance or rejection')
+                      '(-2..+2 s, far) x multiples of the allowance x allowance {0,1,60,86400} x seven time-stamp spellings (fractions below and above one half, numeric time-zone offsets); '
+                      'thorough replays all, quick a seeded quarter; non-trivial = the contract demands acceptance or rejection')
     chk.assumptions = ['virtual clock (saml2_tophat.time_util.time/datetime rebound); unsigned responses',
                        'instants exactly on an edge and margins within the allowance are left open']
     # the same receiver over time: SPHistory.tla
